@@ -198,22 +198,33 @@ fn emit_nodes(cx: &mut Ctx, out: &mut String, nodes: &[Node], ind: usize) {
                     .unwrap_or_else(|| panic!("unknown global {g}"));
                 let _ = writeln!(out, "{pad}{}", access_stmt(cx.s, gl, how, with.as_deref()));
             }
-            Node::Call { f, expr } => {
+            Node::Call { f, expr, dag } => {
                 let fd = cx
                     .s
                     .functions
                     .iter()
                     .find(|x| &x.name == f)
                     .unwrap_or_else(|| panic!("unknown function {f}"));
+                let arg = if fd.param {
+                    cx.tmp += 1;
+                    let t = cx.tmp;
+                    let _ = writeln!(out, "{pad}var a{t}_0 = 1u;");
+                    for i in 1..=*dag {
+                        let _ = writeln!(out, "{pad}let a{t}_{i} = a{t}_{} * a{t}_{};", i - 1, i - 1);
+                    }
+                    format!("a{t}_{dag}")
+                } else {
+                    String::new()
+                };
                 if fd.ret {
                     cx.tmp += 1;
                     if *expr {
-                        let _ = writeln!(out, "{pad}let t{} = {f}() + 1u;", cx.tmp);
+                        let _ = writeln!(out, "{pad}let t{} = {f}({arg}) + 1u;", cx.tmp);
                     } else {
-                        let _ = writeln!(out, "{pad}let t{} = {f}();", cx.tmp);
+                        let _ = writeln!(out, "{pad}let t{} = {f}({arg});", cx.tmp);
                     }
                 } else {
-                    let _ = writeln!(out, "{pad}{f}();");
+                    let _ = writeln!(out, "{pad}{f}({arg});");
                 }
             }
             Node::Block { ctx, items } => {
@@ -237,6 +248,12 @@ fn emit_nodes(cx: &mut Ctx, out: &mut String, nodes: &[Node], ind: usize) {
                         let _ = write!(
                             out,
                             "{pad}switch (0) {{\n{ipad}case 1: {{\n{inner}{ipad}}}\n{ipad}default: {{\n{ipad}}}\n{pad}}}\n"
+                        );
+                    }
+                    "switch_multi" => {
+                        let _ = write!(
+                            out,
+                            "{pad}switch (0) {{\n{ipad}case 1, 2, 3: {{\n{inner}{ipad}}}\n{ipad}default: {{\n{ipad}}}\n{pad}}}\n"
                         );
                     }
                     "switch_default" => {
@@ -373,10 +390,11 @@ pub fn concretise(s: &Shader) -> String {
     for f in &s.functions {
         let mut body = String::new();
         emit_nodes(&mut cx, &mut body, &f.body, 1);
+        let p = if f.param { "p: u32" } else { "" };
         if f.ret {
-            let _ = write!(out, "fn {}() -> u32 {{\n{body}    return 0u;\n}}\n", f.name);
+            let _ = write!(out, "fn {}({p}) -> u32 {{\n{body}    return 0u;\n}}\n", f.name);
         } else {
-            let _ = write!(out, "fn {}() {{\n{body}}}\n", f.name);
+            let _ = write!(out, "fn {}({p}) {{\n{body}}}\n", f.name);
         }
     }
     for e in &s.entries {
@@ -395,6 +413,11 @@ pub fn concretise(s: &Shader) -> String {
             })
             .collect();
         let (res, ret) = match &e.result {
+            // a vertex entry point must produce a position: default when the record leaves the result open
+            None if e.stage == "vertex" => (
+                " -> @builtin(position) vec4<f32>".to_string(),
+                "    return vec4<f32>();\n".to_string(),
+            ),
             None => (String::new(), String::new()),
             Some(ResultDef::Builtin { b }) => (
                 format!(" -> @builtin({b}) {}", builtin_ty(b)),
